@@ -39,6 +39,11 @@ def groups(tier, seed):
                  list(family_descs(n, iso_classes(n), [(2, 3, 2)[:n]], fams=(), fps=(0,))):
             for stl in STYLES:
                 out.append({"part": "bn", "bn": d, "style": stl, "emax": 1 if tier == "quick" else 2})
+        # non-dyadic columns (float sums differ from 1 by an ulp) with an impossible LAST state
+        for cv in ((4, 2, 3), (2, 4, 4)):
+            for e in iso_classes(n):
+                for k in (0, 1):
+                    out.append({"part": "bn", "bn": {"n": n, "edges": [list(x) for x in e], "card": list(cv[:n]), "cols": {"nd": k}}, "style": "str", "emax": 1})
     for n in (2, 3):
         for d in family_descs(n, iso_classes(n), [(2, 3, 2)[:n]], fams=(), fps=(1,)):
             for stl in ("def", "rot", "str"):
@@ -121,7 +126,7 @@ def _law_check(st, site, case, law, info, expected, tol=F(0)):
         keys = {k for k in law if expected.get(k, F(0)) == 0}
     for k in keys:
         a, b = law.get(k, F(0)), expected.get(k, F(0))
-        if abs(a - b) > F(1, 10 ** 12):
+        if abs(a - b) > F(1, 10 ** 12) or (b == 0 and a > 0):
             kind = "impossible-outcome" if b == 0 else "wrong-law"
             st.violation(site, kind, case, {"outcome": str(k)[:300], "probability": float(a)}, float(b))
             return False
